@@ -22,6 +22,8 @@ props = {}
 for line in subprocess.check_output([NL, "-list"], text=True).splitlines():
     pid, rules = line.split(":", 1)
     for r in rules.split(): props.setdefault(r, []).append(pid.strip())
+import re as _re
+KNOWN_PATS = [_re.compile(p) for f in json.load(open(here + "/known_findings.json"))["findings"] if f["status"] == "known" for p in f.get("key_patterns", [])]
 base, _ = run_all("/repo")
 bad0 = {key(o) for o in base if o["status"] != "discharged"}
 def one(sid):
@@ -32,7 +34,7 @@ def one(sid):
         if r.returncode != 0: return sid, None, "patch failed: " + r.stdout + r.stderr
         obs, log = run_all(d)
         if obs is None: return sid, None, "nutslint failed: " + log[-400:]
-        new = [o for o in obs if o["status"] != "discharged" and key(o) not in bad0]
+        new = [o for o in obs if o["status"] != "discharged" and key(o) not in bad0 and not any(r.search(key(o)) for r in KNOWN_PATS)]
         return sid, new, ""
     finally:
         shutil.rmtree(d, ignore_errors=True)
